@@ -451,6 +451,34 @@ def part_c_listing(k, plan, exe, root):
         idxs = []
         for pi in picks:
             idxs.append((pi, g2.emit('R 0 %d %d %d %d %d %d %d %d 100000' % (fk, fd, 0x1000, mins, maxs, 0x800, first_pass[pi][1], r.getrandbits(32)), 'R')))
+        # a walk of single fd_readdir calls (one call each, exact buffer size) whose outcome is predicted from the sizes of the entries:
+        # partial listing that stops in the middle -> resume at the END cookie (nothing) -> resume exactly where the partial one stopped
+        # (at the cookie of its last complete entry, or of the entry that was cut off) -> ...
+        end_cookie = first_pass[-1][1]
+        walk = []
+
+        def predict(i, S):
+            # entries delivered completely by ONE call of size S resuming after entry i (i = -1: from the start)
+            got, used = [], 0
+            for e in first_pass[i + 1:]:
+                need = 24 + len(e[0])
+                if used + need > S:
+                    break
+                got.append(e[0])
+                used += need
+            return got
+        for _ in range(6):
+            a = r.randrange(-1, max(0, len(first_pass) - 2))
+            S = mins + r.choice([0, 1, 30, 60, 200])
+            walk.append((a, S))
+            b = a + len(predict(a, S))
+            walk.append(('end', S))
+            for back in r.sample([b, min(b + 1, len(first_pass) - 1), a], 2):
+                walk.append((back, mins + r.choice([0, 40, 300])))
+        widx = []
+        for a, S in walk:
+            ck = end_cookie if a == 'end' else 0 if a == -1 else first_pass[a][1]
+            widx.append((a, S, g2.emit('R 0 %d %d %d %d %d %d %d %d 1' % (fk, fd, 0x1000, S, S, 0x800, ck, r.getrandbits(32)), 'R')))
         script2 = g2.script()
         rr2, out2 = wasih.run_script(exe, d, script2, tag='p2')
         files2 = {'script.txt': script2, 'stderr.txt': rr2.err.decode('latin-1')[-4000:], 'log.txt': '\n'.join(out2)[-20000:]}
@@ -471,6 +499,17 @@ def part_c_listing(k, plan, exe, root):
                         res.append(('C14:readdir:resume', 'listing %d: resuming from the cookie returned with entry #%d delivers %d entries (%r...), expected the %d that followed it (%r...) %s' % (
                             k, pi, len(got), got[:2], len(want), want[:2], flags), files2))
                         break
+                for a, S, ix in widx:
+                    if ix >= len(out2) or res:
+                        break
+                    ents, flags = parse(out2[ix])
+                    flags = [f for f in flags if f != 'MAXCALLS']
+                    want = [] if a == 'end' else predict(a, S)
+                    got = [e[0] for e in ents]
+                    classes.append((n if n < 10 else (n // 50) * 50, 'walk-end' if a == 'end' else 'walk', policy))
+                    if flags or got != want:
+                        res.append(('C14:readdir:resume:walk', 'listing %d: one fd_readdir call of %d bytes resuming %s delivers %r..., expected %r... %s (walk of single calls: partial, end, back to where the partial one stopped)' % (
+                            k, S, 'at the end-of-directory cookie' if a == 'end' else 'after entry #%d' % a, got[:3], want[:3], flags), files2))
             else:
                 classes.append(('cookies-not-stable', 'skipped', policy))
     shutil.rmtree(d, ignore_errors=True)
